@@ -1,0 +1,15 @@
+//go:build !verif
+
+// Package vhook provides named instrumentation points for external runtime
+// verification. Without the "verif" build tag all functions are empty and are
+// inlined away.
+package vhook
+
+// Enabled reports whether instrumentation points are compiled in.
+const Enabled = false
+
+// At marks an instrumentation point.
+func At(point string) {}
+
+// AtS marks an instrumentation point with a subject (e.g. a module or key name).
+func AtS(point, subject string) {}
